@@ -5,28 +5,52 @@ Context / MultiContext / LinkedContext objects.  Every transition executes the
 operation on freshly rebuilt real objects and on models/layers.py; after every
 transition *all* observables of *every* context are compared with the model.
 States are deduplicated by a complete snapshot of the real objects.
+
+Two alphabets.  Profiles S, O, M: variables and functions, every overload a
+function.  Profile K (overload kinds): functions only, but an overload is a
+function, a method or an extension method, a registration may be one the context
+has to refuse (a method without a usable receiver parameter; the host catches
+InvalidMethodException and carries on), and function collection is observed
+without a filter and through the two filters yaql.language.runner.call passes
+for `name()` and for `x.name()`.  The model: a refused registration changes
+nothing; an exclusive layer ends the walk whether or not the filter keeps any
+of its overloads.
 """
 import vf.loader  # noqa: F401
 from vf import bfs, canon
 from vf.core import Result, CURRENT_CASE
-from models.layers import Forest
+from models.layers import Forest, Rejected
 
-from yaql.language import contexts, conventions, specs
+from yaql.language import contexts, conventions, specs, yaqltypes
 
 ID = 'C17'
 TITLE = 'context forests vs flattened-layers model'
 RULE = ('BFS over all histories of {new root, child, MultiContext([x,y]), LinkedContext(x,y), set, delete, register (+-exclusive), '
         'delete_function} within the node/operation/depth bounds of each profile, deduplicated by a full snapshot of the real objects; '
-        'every transition is judged on all observables of all contexts; a state is non-trivial when the forest contains a multi or linked '
+        'profile K replaces set/delete by registrations of function / method / extension-method overloads (+-exclusive) and by registrations '
+        'of invalid method specifications (+-exclusive) whose rejection the host catches; '
+        'every transition - a refused registration included - is judged on all observables of all contexts (profile K: get_functions and '
+        'collect_functions unfiltered, functions only, methods only); a state is non-trivial when the forest contains a multi or linked '
         'context or a child, i.e. more than one layer is involved')
 ASSUMPTIONS = ['contexts use the CamelCaseConvention; functions are looked up by their registered name and by their python name with use_convention=True',
                'values are 1, 2, 0 and null (a variable set to null or to a falsy value is defined: it shadows farther layers and is a member/key)',
                'delete_function also clears the exclusive mark of that name in the stores it touches (documented code fact, DESIGN A.4)',
-               'values are small integers; function overloads are distinguishable zero-argument functions named f']
+               'values are small integers; function overloads are distinguishable functions named f_g: without parameters (a function) or with '
+               'one receiver parameter (@specs.method, @specs.extension_method)',
+               'a registration is refused when the specification is a method whose first visible parameter is missing or lazy '
+               '(InvalidMethodException, raised by Context.register_function); a refused registration registers nothing and marks nothing',
+               'the filters are those of yaql.language.runner.call with the default function_filter: fd.is_function for name(), fd.is_method for x.name(); '
+               'a filter removes overloads from the result, never the exclusive mark of a layer',
+               'profile K observes functions only (its histories contain no variable operation) and applies the filters to the direct lookup only; '
+               'of get_functions with a filter only the overloads are compared (the property says nothing about its exclusive flag under a filter)']
 BOUNDS = {
     'quick': 'profile S (structure): <=5 contexts, <=1 data/function operation, depth 6; profile O (operations): <=3 contexts, <=5 operations, depth 5; '
-             'profile M: <=4 contexts, <=2 operations, depth 6; values {1, 2, null}',
-    'thorough': 'profile S: <=5 contexts, <=2 operations, depth 6; profile O: <=3 contexts, <=6 operations, depth 6; profile M: <=4 contexts, <=3 operations, depth 7',
+             'profile M: <=4 contexts, <=2 operations, depth 6; values {1, 2, 0, null}; '
+             'profile K (overload kinds, refused registrations, filtered collection): <=4 contexts, <=3 function operations, depth 5 '
+             '(i.e. 4 contexts + 1 operation, 3 + 2, 2 + 3), <=2 distinct overloads each of kind function / method / extension method, '
+             '2 invalid method shapes (no receiver, lazy receiver) x +-exclusive',
+    'thorough': 'profile S: <=5 contexts, <=2 operations, depth 6; profile O: <=3 contexts, <=6 operations, depth 6; profile M: <=4 contexts, <=3 operations, depth 7; '
+                'profile K: <=4 contexts, <=3 function operations, depth 7 (same kinds and invalid shapes)',
 }
 
 SET_EVENTS = (('a', 1), ('a', 2), ('a', None), ('a', 0), ('$', 1), ('1', 2), ('', None))
@@ -39,11 +63,65 @@ CONV = conventions.CamelCaseConvention()     # the python name f_g is registered
 FNAME, PYNAME = 'fG', 'f_g'
 
 
-def _fd(tag):
-    def f_g():
-        return tag
+# Overload kinds (profile K): 'f' a function (called as fG()), 'm' a method (@specs.method, called as x.fG()),
+# 'x' an extension method (both).  A tag is 't<index>' (a function: profiles S, O, M) or 't<index><kind>'.
+# Registrations the context must refuse (InvalidMethodException): a method whose receiver parameter is missing or lazy.
+BAD_SHAPES = ('no-receiver', 'lazy-receiver')
+
+
+def kind_of(tag):
+    return tag[2:] or 'f'
+
+
+def is_function(tag):
+    return kind_of(tag) in ('f', 'x')
+
+
+def is_method(tag):
+    return kind_of(tag) in ('m', 'x')
+
+
+# the filters of yaql.language.runner.call (function_filter left at its default): name() collects functions, x.name() methods
+PREDICATES = (('functions', lambda fd, ctx: fd.is_function, is_function),
+              ('methods', lambda fd, ctx: fd.is_method, is_method))
+
+
+def _template(tag):
+    """The specification of an overload / of a refused registration, made from a python function once per process."""
+    kind = kind_of(tag)
+    if tag == 'rejected:no-receiver':
+        @specs.method
+        def f_g():
+            return tag
+    elif tag == 'rejected:lazy-receiver':
+        @specs.method
+        @specs.parameter('receiver', yaqltypes.Lambda())
+        def f_g(receiver):
+            return tag
+    elif kind == 'f':
+        def f_g():
+            return tag
+    else:
+        def f_g(receiver):
+            return tag
+        (specs.method if kind == 'm' else specs.extension_method)(f_g)
     fd = specs.get_function_definition(f_g, convention=CONV)
     assert fd.name == FNAME
+    if tag.startswith('rejected:'):
+        assert fd.is_method and not fd.is_valid_method()
+    else:
+        assert (fd.is_function, fd.is_method) == (is_function(tag), is_method(tag)) and (not fd.is_method or fd.is_valid_method())
+    return fd
+
+
+TEMPLATES = {}
+
+
+def _fd(tag):
+    """A fresh FunctionDefinition (own parameter objects, own meta) for every world."""
+    if tag not in TEMPLATES:
+        TEMPLATES[tag] = _template(tag)
+    fd = TEMPLATES[tag].clone()
     fd.meta = {'tag': tag}
     return fd
 
@@ -81,6 +159,8 @@ def apply_real(w, ev):
         r[ev[1]].register_function(w.fd(ev[2]), exclusive=ev[3])
     elif op == 'delf':
         r[ev[1]].delete_function(w.fd(ev[2]))
+    elif op == 'badreg':
+        r[ev[1]].register_function(w.fd('rejected:' + ev[2]), exclusive=ev[3])
     else:
         raise AssertionError(ev)
 
@@ -104,26 +184,37 @@ def apply_model(w, ev):
         m.register(ev[1], ev[2], ev[3])
     elif op == 'delf':
         m.delete_function(ev[1], ev[2])
+    elif op == 'badreg':
+        m.register_rejected(ev[1], ev[3])
+
+
+# what the model's refusal of an operation looks like on the implementation
+REFUSALS = {KeyError: 'KeyError', Rejected: 'InvalidMethodException'}
+
+
+def step(w, ev):
+    """Execute one event on the model and on the real objects -> (model's refusal or None, the implementation's, its message)."""
+    m_exc = r_exc = r_msg = None
+    try:
+        apply_model(w, ev)
+    except (KeyError, Rejected) as e:
+        m_exc = REFUSALS[type(e)]
+    try:
+        apply_real(w, ev)
+    except Exception as e:
+        r_exc = type(e).__name__
+        r_msg = str(e)[:120]
+    return m_exc, r_exc, r_msg
 
 
 def build(hist):
+    """Replays a history; only registrations that model and implementation both refuse may fail on the way."""
     w = World()
     for ev in hist:
-        apply_real(w, ev)
-        apply_model(w, ev)
+        m_exc, r_exc, r_msg = step(w, ev)
+        if m_exc != r_exc or (m_exc and ev[0] != 'badreg'):
+            raise ValueError('history does not replay: %r: model %s, implementation %s %s' % (ev, m_exc, r_exc, r_msg))
     return w
-
-
-def kinds_below(w, i, acc=None):
-    """Kinds of contexts involved in context i (for the finding key)."""
-    acc = set() if acc is None else acc
-    n = w.model.nodes[i]
-    acc.add(n['kind'])
-    for j in ([n['parent']] if n['parent'] is not None else []) + (n['members'] or []) + \
-            ([n['linked']] if n['linked'] is not None else []):
-        if j is not None:
-            kinds_below(w, j, acc)
-    return acc
 
 
 def topo(w, i):
@@ -135,31 +226,52 @@ def topo(w, i):
     return 'linked-to-' + w.model.nodes[n['linked']]['kind']
 
 
-def observe_all(w, res):
-    """Compare every observable of every context; returns a (key, detail) or None."""
+def _tags(fds):
+    return sorted(fd.meta['tag'] for fd in fds)
+
+
+def observe_all(w, res, filtered=False):
+    """Compare every observable of every context; returns a (key, detail) or None.
+    filtered (profile K, whose histories contain no variable operation): the function observables only, and in addition
+    those seen through the filters the engine uses for function calls and for method calls."""
+    m = w.model
     for i, r in enumerate(w.real):
-        m = w.model
-        for n in NAMES:
-            res.transitions += 1
-            if r[n] != m.get(i, n):
-                return ('read-variable ctx=%s' % topo(w, i), 'ctx %d [%r]: model %r real %r' % (i, n, m.get(i, n), r[n]))
-            if (n in r) != m.contains(i, n):
-                return ('membership ctx=%s' % topo(w, i), 'ctx %d %r in: model %r real %r' % (i, n, m.contains(i, n), n in r))
-        if list(r.keys()) != m.keys(i):
-            return ('keys ctx=%s' % topo(w, i), 'ctx %d keys: model %r real %r' % (i, m.keys(i), list(r.keys())))
+        if not filtered:
+            for n in NAMES:
+                res.transitions += 1
+                if r[n] != m.get(i, n):
+                    return ('read-variable ctx=%s' % topo(w, i), 'ctx %d [%r]: model %r real %r' % (i, n, m.get(i, n), r[n]))
+                if (n in r) != m.contains(i, n):
+                    return ('membership ctx=%s' % topo(w, i), 'ctx %d %r in: model %r real %r' % (i, n, m.contains(i, n), n in r))
+            if list(r.keys()) != m.keys(i):
+                return ('keys ctx=%s' % topo(w, i), 'ctx %d keys: model %r real %r' % (i, m.keys(i), list(r.keys())))
+        m_get, m_col = m.get_functions(i), m.collect(i)
         for lookup, kw in ((FNAME, {}), (PYNAME, {'use_convention': True})):
+            if filtered:
+                res.transitions += 1
             fs, ex = r.get_functions(lookup, **kw)
-            got = (sorted(fd.meta['tag'] for fd in fs), bool(ex))
+            got = (_tags(fs), bool(ex))
             how = 'by-python-name' if kw else 'direct'
-            if got != m.get_functions(i):
-                return ('get_functions ctx=%s lookup=%s' % (topo(w, i), how), 'ctx %d: model %r real %r' % (i, m.get_functions(i), got))
-            col = [sorted(fd.meta['tag'] for fd in layer) for layer in r.collect_functions(lookup, **kw)]
-            if col != m.collect(i):
-                return ('collect_functions ctx=%s lookup=%s' % (topo(w, i), how), 'ctx %d: model %r real %r' % (i, m.collect(i), col))
+            if got != m_get:
+                return ('get_functions ctx=%s lookup=%s' % (topo(w, i), how), 'ctx %d: model %r real %r' % (i, m_get, got))
+            col = [_tags(layer) for layer in r.collect_functions(lookup, **kw)]
+            if col != m_col:
+                return ('collect_functions ctx=%s lookup=%s' % (topo(w, i), how), 'ctx %d: model %r real %r' % (i, m_col, col))
+        if filtered:
+            for pname, pred, keep in PREDICATES:
+                res.transitions += 1
+                got, exp = _tags(r.get_functions(FNAME, lambda fd: pred(fd, r))[0]), m.get_functions(i, keep)[0]
+                if got != exp:
+                    return ('get_functions ctx=%s filter=%s' % (topo(w, i), pname), 'ctx %d, %s only: model %r real %r' % (i, pname, exp, got))
+                col, exp = [_tags(layer) for layer in r.collect_functions(FNAME, pred)], m.collect(i, keep)
+                if col != exp:
+                    return ('collect_functions ctx=%s filter=%s' % (topo(w, i), pname), 'ctx %d, %s only: model %r real %r' % (i, pname, exp, col))
     return None
 
 
-def make_enabled(max_nodes, max_ops):
+def make_enabled(max_nodes, max_ops, kinds=''):
+    """kinds='' (profiles S, O, M): variables and functions, every overload a function.
+    kinds='fm' / 'fmx' (profile K): no variables; overloads of these kinds and refused registrations."""
     def enabled(hist, w):
         n = len(w.real)
         nops = sum(1 for e in hist if e[0] not in CREATE)
@@ -176,63 +288,64 @@ def make_enabled(max_nodes, max_ops):
         if nops < max_ops:
             used = [e[2] for e in hist if e[0] == 'reg']
             for i in range(n):
-                for name, v in SET_EVENTS:
-                    evs.append(('set', i, name, v))
-                for name in NAMES:
-                    evs.append(('del', i, name))
+                if not kinds:
+                    for name, v in SET_EVENTS:
+                        evs.append(('set', i, name, v))
+                    for name in NAMES:
+                        evs.append(('del', i, name))
                 if len(used) < len(TAGS):
-                    t = TAGS[len(used)]
-                    evs.append(('reg', i, t, False))
-                    evs.append(('reg', i, t, True))
+                    for t in ([TAGS[len(used)] + k for k in kinds] if kinds else [TAGS[len(used)]]):
+                        evs.append(('reg', i, t, False))
+                        evs.append(('reg', i, t, True))
                 for t in sorted(set(used)):
                     evs.append(('reg', i, t, False))     # the same overload registered in another context
                     evs.append(('delf', i, t))
+                if kinds:
+                    for shape in BAD_SHAPES:
+                        evs.append(('badreg', i, shape, False))
+                        evs.append(('badreg', i, shape, True))
         return evs
     return enabled
 
 
-def job_search(label, root_hist, max_nodes, max_ops, max_depth):
+def refusal_key(w, ev, m_exc, r_exc):
+    if ev[0] in ('multi', 'linked'):
+        # the model has already appended its node; kinds of the arguments are what matters
+        shape = '%s(%s,%s)' % (ev[0], w.model.nodes[ev[1]]['kind'], w.model.nodes[ev[2]]['kind'])
+    elif ev[0] in CREATE:
+        shape = ev[0] + ('-of-' + topo(w, ev[1]) if ev[0] == 'child' else '')
+    else:
+        shape = '%s ctx=%s' % (ev[0], topo(w, ev[1]))
+    return 'operation-outcome op=%s model=%s real=%s' % (shape, m_exc, r_exc)
+
+
+def job_search(label, root_hist, max_nodes, max_ops, max_depth, kinds=''):
     res = Result()
     root_hist = tuple(tuple(e) for e in root_hist)
 
     def judge(hist, ev, w):
-        CURRENT_CASE[0] = {'kind': 'history', 'history': [list(e) for e in hist + (ev,)]}
+        case = {'kind': 'history', 'history': [list(e) for e in hist + (ev,)], 'filtered': bool(kinds)}
+        CURRENT_CASE[0] = case
         res.evaluations += 1
-        case = {'kind': 'history', 'history': [list(e) for e in hist + (ev,)]}
-        m_exc = r_exc = None
-        try:
-            apply_model(w, ev)
-        except KeyError:
-            m_exc = 'KeyError'
-        try:
-            apply_real(w, ev)
-        except Exception as e:
-            r_exc = type(e).__name__
-            r_msg = str(e)[:120]
+        m_exc, r_exc, r_msg = step(w, ev)
         if m_exc != r_exc:
-            tgt = ev[1] if len(ev) > 1 and isinstance(ev[1], int) else None
-            if ev[0] in CREATE:
-                shape = ev[0] + ('-of-' + topo(w, ev[1]) if ev[0] == 'child' else '')
-                if ev[0] in ('multi', 'linked'):
-                    shape = '%s(%s,%s)' % (ev[0], w.model.nodes[ev[1]]['kind'], w.model.nodes[ev[2]]['kind'])
-                    # the model has already appended its node; kinds of the arguments are what matters
-            else:
-                shape = '%s ctx=%s' % (ev[0], topo(w, tgt))
-            res.fail('operation-outcome op=%s model=%s real=%s' % (shape, m_exc, r_exc), case,
+            res.fail(refusal_key(w, ev, m_exc, r_exc), case,
                      'model %s, implementation %s%s' % (m_exc or 'succeeds', r_exc or 'succeeds',
                                                         (': ' + r_msg) if r_exc else ''),
                      size=len(hist) * 100 + len(repr(ev)))
             res.outcomes['op-outcome mismatch'] += 1
             return None
-        if m_exc is not None:
-            res.outcomes['op raises ' + m_exc] += 1
-            return None            # both refuse: state unchanged, nothing new to explore
-        bad = observe_all(w, res)
+        if m_exc == 'KeyError':
+            res.outcomes['op raises KeyError'] += 1
+            return None            # both refuse: nothing new to explore
+        # a refused registration is judged like any other step: it must leave every observable as it was (the model
+        # did not move); the state it leaves is explored further if its snapshot is new, which a correct tree never shows
+        bad = observe_all(w, res, bool(kinds))
         if bad is not None:
             res.fail(bad[0] + ' after=%s' % ev[0], case, bad[1], size=len(hist) * 100 + len(repr(ev)))
             res.outcomes['observable mismatch'] += 1
             return None
-        res.outcomes['ok ' + ev[0]] += 1
+        res.outcomes[('refused ' if m_exc else 'ok ') + ev[0]] += 1
         return w
 
     def canon_state(w):
@@ -245,7 +358,7 @@ def job_search(label, root_hist, max_nodes, max_ops, max_depth):
         if len(res.samples) < 1 and len(hist) >= max_depth - 1:
             res.sample({'history': [list(e) for e in hist]})
 
-    states, transitions, left = bfs.search(root_hist, make_enabled(max_nodes, max_ops), build, canon_state,
+    states, transitions, left = bfs.search(root_hist, make_enabled(max_nodes, max_ops, kinds), build, canon_state,
                                            judge, max_depth, res, on_state)
     res.extra['bfs_states_' + label.split(':')[0]] = states
     res.extra['bfs_transitions_' + label.split(':')[0]] = transitions
@@ -335,23 +448,26 @@ def job_conventions():
     return res
 
 
+# (name, contexts, operations, depth, kinds): see make_enabled for the two alphabets
 PROFILES = {
-    'quick': (('S', 5, 1, 6), ('O', 3, 5, 5), ('M', 4, 2, 6)),
-    'thorough': (('S', 5, 2, 6), ('O', 3, 6, 6), ('M', 4, 3, 7)),     # ~15 000 CPU-s (measured by sampling shards)
+    'quick': (('S', 5, 1, 6, ''), ('O', 3, 5, 5, ''), ('M', 4, 2, 6, ''), ('K', 4, 3, 5, 'fmx')),
+    'thorough': (('S', 5, 2, 6, ''), ('O', 3, 6, 6, ''), ('M', 4, 3, 7, ''), ('K', 4, 3, 7, 'fmx')),
 }
 
 
 def jobs(tier, seed):
     out = [('conventions', 'job_conventions', ())]
-    for name, max_nodes, max_ops, depth in PROFILES[tier]:
+    for name, max_nodes, max_ops, depth, kinds in PROFILES[tier]:
         # shard by the first three events (histories start with a root)
-        en = make_enabled(max_nodes, max_ops)
+        en = make_enabled(max_nodes, max_ops, kinds)
         prefixes = [(('root',),)]
         for _ in range(2):
             nxt = []
             for h in prefixes:
                 w = build(h)
                 for ev in en(h, w):
+                    if ev[0] == 'badreg':
+                        continue        # judged by the :top job; it leaves the state of the shorter prefix
                     try:
                         build(h + (ev,))
                     except Exception:
@@ -359,10 +475,10 @@ def jobs(tier, seed):
                     nxt.append(h + (ev,))
             prefixes = nxt
         # the short prefixes themselves are judged by a depth-limited job
-        out.append(('%s:top' % name, 'job_search', ('%s:top' % name, [('root',)], max_nodes, max_ops, 3)))
+        out.append(('%s:top' % name, 'job_search', ('%s:top' % name, [('root',)], max_nodes, max_ops, 3, kinds)))
         for i, h in enumerate(prefixes):
             out.append(('%s:%03d' % (name, i), 'job_search',
-                        ('%s:%03d' % (name, i), [list(e) for e in h], max_nodes, max_ops, depth)))
+                        ('%s:%03d' % (name, i), [list(e) for e in h], max_nodes, max_ops, depth, kinds)))
     return out
 
 
@@ -374,18 +490,11 @@ def replay(case):
     res = Result()
     w = build(tuple(hist[:-1]))
     ev = hist[-1]
-    m_exc = r_exc = None
-    try:
-        apply_model(w, ev)
-    except KeyError:
-        m_exc = 'KeyError'
-    try:
-        apply_real(w, ev)
-    except Exception as e:
-        r_exc = '%s: %s' % (type(e).__name__, str(e)[:120])
-    if (m_exc is None) != (r_exc is None):
-        return {'observed': 'implementation ' + (r_exc or 'succeeds'), 'expected': 'model ' + (m_exc or 'succeeds'), 'ok': False}
-    if m_exc is not None:
-        return {'observed': r_exc, 'expected': m_exc, 'ok': r_exc.startswith(m_exc)}
-    bad = observe_all(w, res)
-    return {'observed': bad[1] if bad else 'all observables agree', 'expected': 'model', 'ok': bad is None}
+    m_exc, r_exc, r_msg = step(w, ev)
+    outcome = 'operation: model %s, implementation %s' % (m_exc or 'succeeds', ('%s: %s' % (r_exc, r_msg)) if r_exc else 'succeeds')
+    if m_exc != r_exc:
+        return {'observed': outcome, 'expected': 'the same outcome', 'ok': False}
+    if m_exc == 'KeyError':
+        return {'observed': outcome, 'expected': 'both refuse', 'ok': True}
+    bad = observe_all(w, res, case.get('filtered', False))
+    return {'observed': outcome + '; ' + (bad[1] if bad else 'all observables agree'), 'expected': 'all observables as in the model', 'ok': bad is None}
